@@ -28,6 +28,7 @@ func (w *World) VerifyFunction(fn *ssa.Function, opts VerifyOpts) (res *FuncResu
 	ex.FrameChk = opts.Frame
 	ex.OnlyKinds = opts.OnlyKinds
 	ex.LevelChk = opts.Level
+	ex.Vacuity = opts.Vacuity
 	if opts.MaxPaths > 0 {
 		ex.MaxPaths = opts.MaxPaths
 	}
